@@ -67,6 +67,7 @@ var subC10 = harness.NewSub("c10-destination-ssrc", func(c valCase, d harness.Di
 })
 
 func TestC10(t *testing.T) {
+	defer harness.Uncaught(t)
 	harness.RapidCheck(t, harness.Scale(8000, 60000), 10, func(rt *rapid.T) {
 		c := valCase{P: genValue(rt)}
 		n := len(m.DestSSRC(c.P))
